@@ -9,16 +9,19 @@ use serde::{Deserialize, Serialize};
 use crate::engine::{Ctx, Outcome, Property, Tier};
 use crate::peers::{connect_proxy_then_tls, https_proxy, tls_server};
 
-/// (fixture, chains to the fixture root, expired, name matches localhost / 127.0.0.1)
-pub const CERTS: &[(&str, bool, bool, bool)] = &[
-    ("good", true, false, true),
-    ("wrongname", true, false, false),
-    ("selfsigned", false, false, true),
-    ("selfsigned_wrongname", false, false, false),
-    ("unknownissuer", false, false, true),
-    ("unknownissuer_wrongname", false, false, false),
-    ("expired", true, true, true),
-    ("expired_wrongname", true, true, false),
+/// (fixture, chains to the fixture root, expired, name matches `localhost`, name matches `127.0.0.1`)
+pub const CERTS: &[(&str, bool, bool, bool, bool)] = &[
+    ("good", true, false, true, true),
+    ("wrongname", true, false, false, false),
+    ("selfsigned", false, false, true, true),
+    ("selfsigned_wrongname", false, false, false, false),
+    ("unknownissuer", false, false, true, true),
+    ("unknownissuer_wrongname", false, false, false, false),
+    ("expired", true, true, true, true),
+    ("expired_wrongname", true, true, false, false),
+    // valid for exactly one of the two names by which the peer is contacted
+    ("localhostonly", true, false, true, false),
+    ("iponly", true, false, false, true),
 ];
 
 #[derive(Debug, Clone, Serialize, Deserialize, PartialEq, Eq, Hash)]
@@ -107,9 +110,9 @@ fn apply_builder(mut b: attohttpc::RequestBuilder, c: &Case) -> attohttpc::Reque
 impl Property for C14 {
     type Case = Case;
     const ID: &'static str = "C14";
-    const RULE: &'static str = "configuration matrix {chains to the added root, wrong name, self-signed, unknown issuer, expired, each with matching / differing name} x accept_invalid_certs x accept_invalid_hostnames x root added x \
+    const RULE: &'static str = "configuration matrix {chains to the added root, wrong name, self-signed, unknown issuer, expired, each with matching / differing name, valid for only one of the two names of the peer} x accept_invalid_certs x accept_invalid_hostnames x root added x \
 route {direct https, inside a CONNECT tunnel through a plain proxy, https proxy presenting the certificate} x where the flags/root were set {session, this request, sibling request created before / after, session after the request was created} x \
-contacted host {localhost, 127.0.0.1}: 1920 cells per TLS backend, each a real TLS handshake against a rustls server on a loopback socket; both tiers run all cells of both backends. Oracle = the truth table, both directions. \
+contacted host {localhost, 127.0.0.1}: 2400 cells per TLS backend, each a real TLS handshake against a rustls server on a loopback socket; both tiers run all cells of both backends. Oracle = the truth table, both directions. \
 non-trivial = at least one danger flag, an added root or a non-valid certificate; distinct by cell";
 
     fn assumptions() -> Vec<String> {
@@ -167,8 +170,9 @@ non-trivial = at least one danger flag, an added root or a non-valid certificate
     }
 
     fn check(case: &Case, ctx: &mut Ctx) -> Outcome {
-        let (fixture, chains, expired, name_ok) = CERTS[case.cert as usize % CERTS.len()];
+        let (fixture, chains, expired, ok_localhost, ok_ip) = CERTS[case.cert as usize % CERTS.len()];
         let host = if case.host_form == 0 { "localhost" } else { "127.0.0.1" };
+        let name_ok = if case.host_form == 0 { ok_localhost } else { ok_ip };
         // peers
         let mut peer = match case.route {
             0 => tls_server(fixture),
